@@ -134,6 +134,10 @@ func addBareTypes(r *Rng, s *jsonapi.Schema) {
 	putType(s, jsonapi.Type{Name: "bare"})
 	onlyRels := jsonapi.Type{Name: "joins"}
 	putRel(&onlyRels, jsonapi.Rel{FromType: "joins", FromName: "left", ToOne: true, ToType: "bare"})
+	// hand-written relationships that do not say which type they belong to (Check reports
+	// them; no query may fill the blank in)
+	putRel(&onlyRels, jsonapi.Rel{FromName: "right", ToOne: true, ToType: "joins", ToName: "back"})
+	putRel(&onlyRels, jsonapi.Rel{FromName: "back", ToOne: false, ToType: "joins", ToName: "right", FromOne: true})
 	putType(s, onlyRels)
 }
 
